@@ -12,6 +12,7 @@ RULE = ("expand/combine: every list of <=3 sample counts in 1..M x every maximum
         "lists over {1,5,9}; scale_and_discretize: every weight list of length <=4 over {1,2,3,5,0.5} x totals 0..16; representing "
         "distributions: every distribution on <=2 bits with integer weights 0..W x N in 1..9 x EVERY answer of the scripted np.random.choice "
         "within the deviation bound. non-trivial = input actually needs splitting / a remainder / a random correction; distinct = canonical input")
+RULE += ' Round 6: expand_sample_sizes called again after the caller consumed its results in place; scale_and_discretize with weights as numpy integer / float arrays, lists of numpy integers, big Python ints.'
 RULE += ' Round 5: sample counts as numpy integers of 8-64 bits at the top of their range, tuples, large Python ints.'
 ASSUMPTIONS = ["np.random.choice is the only randomness used (other entry points are trapped)", "the scripted choice enforces numpy's own argument checks (p >= 0, sum p = 1 within 1e-8)"]
 BOUNDS = {"quick": {"counts": "1..24", "max": "1..25", "weights": "0..5", "N": "1..12 (two-level family on 3 bits: 7 values, <=2 deviations)", "deviations": "all answers on <=2 bits"},
@@ -99,6 +100,81 @@ def expand_kinds_case(case):
     if [int(x) for x in (arg if dt != "py" else ns)] != ns:
         return {"ok": False, "msg": "expand_sample_sizes modified the sample counts it was given", "sig": "expand:kinds-mutated"}
     return {"ok": True, "nt": any(n > m for n in ns), "ops": 1, "out": dt}
+
+
+def expand_history_case(case):
+    """{'ns': [...], 'max': m, 'mut': how the caller consumes the result}: expand_sample_sizes is called, the caller CONSUMES the returned sequences in place (pops jobs off them,
+    zeroes entries, extends them), and calls again with equal arguments - and once more with a slightly different request: every call returns the full, correct expansion"""
+    from orquestra.quantum.circuits import expand_sample_sizes
+    ns, m = case["ns"], case["max"]
+    circs = ["c%d" % i for i in range(len(ns))]
+
+    def judge(ns_, res, tag):
+        new_c, new_n, mult = [list(x) for x in res]
+        if len(mult) != len(ns_) or len(new_c) != len(new_n) or sum(mult) != len(new_c):
+            return "%s: lengths of the returned sequences are inconsistent: %s" % (tag, (new_c, new_n, mult))
+        pos = 0
+        for i, n in enumerate(ns_):
+            chunk_c, chunk_n = new_c[pos:pos + mult[i]], new_n[pos:pos + mult[i]]
+            pos += mult[i]
+            if chunk_c != ["c%d" % i] * mult[i] or any(not 1 <= x <= m for x in chunk_n) or sum(chunk_n) != n:
+                return "%s: copies of circuit %d are %s on %s (requested %d, max %d)" % (tag, i, chunk_n, chunk_c, n, m)
+        return None
+    k = 0
+    for rnd in range(3):
+        res = expand_sample_sizes(list(circs), list(ns), m)
+        k += 1
+        bad = judge(ns, res, "call %d" % (rnd + 1))
+        if bad:
+            return {"ok": False, "msg": "expand_sample_sizes(%s, max=%d) after the caller consumed earlier results in place (%s): %s" % (ns, m, case["mut"], bad), "sig": "expand:history", "ops": k}
+        for seq in res:
+            if isinstance(seq, list):
+                if case["mut"] == "pop":
+                    while seq:
+                        seq.pop()
+                elif case["mut"] == "zero":
+                    for j in range(len(seq)):
+                        seq[j] = 0 if not isinstance(seq[j], str) else "gone"
+                elif case["mut"] == "extend":
+                    seq.extend(seq[:1] * 2)
+                elif case["mut"] == "reverse":
+                    seq.reverse()
+    ns2 = [n + 1 for n in ns]
+    bad = judge(ns2, expand_sample_sizes(list(circs), list(ns2), m), "call with counts + 1")
+    if bad:
+        return {"ok": False, "msg": bad, "sig": "expand:history", "ops": k}
+    return {"ok": True, "nt": any(n > m for n in ns), "ops": k + 1, "out": case["mut"]}
+
+
+def scale_kinds_case(case):
+    """{'weights': [...], 'total': t, 'kind': 'int64'|'uint32'|'float32'|'tuple'|'fraction'|'pyint'}: the weights handed over as numpy arrays of integer / float types, tuples, big Python
+    ints: integers summing exactly to the total, each within one of its exact proportional share (an exception is a failure too - these are ordinary weights)"""
+    from orquestra.quantum.utils import scale_and_discretize
+    w, total, kind = case["weights"], case["total"], case["kind"]
+    arg = {"int64": lambda: np.array(w, dtype=np.int64), "uint32": lambda: np.array(w, dtype=np.uint32), "int32": lambda: np.array(w, dtype=np.int32), "float32": lambda: np.array(w, dtype=np.float32),
+           "float64": lambda: np.array(w, dtype=float), "tuple": lambda: tuple(w), "pyint": lambda: [int(x) for x in w], "np-list": lambda: [np.int64(x) for x in w]}[kind]()
+    ttl = np.int64(total) if case.get("total_np") else total
+    exact = [F(float(np.float32(x))) if kind == "float32" else F(x) for x in w]
+    try:
+        got = scale_and_discretize(arg, ttl)
+    except Exception as e:  # noqa: BLE001
+        sig = "scale:kinds-raises"
+        if isinstance(e, AssertionError) and ((kind == "float32" and total > 2 ** 24) or total > 2 ** 53):
+            sig = "scale:refuses-beyond-2^24-float32" if kind == "float32" and total <= 2 ** 53 else "scale:refuses-beyond-2^53"     # the library's own closing assertion (finding D27: float arithmetic)
+        return {"ok": False, "msg": "scale_and_discretize(%s as %s, total=%s) raises %s: %s" % (str(w)[:80], kind, total, type(e).__name__, str(e)[:80]), "sig": sig}
+    S = sum(exact)
+    bad = None
+    if len(got) != len(w) or any(int(g) != g or isinstance(g, bool) for g in got):
+        bad = "not a list of integers of the input length: %s" % (list(got)[:8],)
+    elif sum(int(g) for g in got) != total:
+        bad = "sum is off by %d" % (sum(int(g) for g in got) - total)
+    else:
+        worst = max(abs(F(int(g)) - x * total / S) for g, x in zip(got, exact))
+        if worst >= 1:
+            bad = "an entry is %s away from its proportional share: %s" % (float(worst), list(got)[:8])
+    if bad:
+        return {"ok": False, "msg": "scale_and_discretize(%s as %s, total=%d): %s" % (str(w)[:80], kind, total, bad), "sig": "scale:kinds"}
+    return {"ok": True, "nt": len(set(w)) > 1, "out": kind}
 
 
 def batch_case(case):
@@ -278,7 +354,7 @@ def seam_validation_case(case):
     return {"ok": True, "nt": True, "ops": 5, "out": "real"}
 
 
-FUNCS = {"scale_big": scale_big_case, "expand_kinds": expand_kinds_case, "expand_combine": expand_case, "batches": batch_case, "pipeline": pipeline_case, "scale": scale_case, "represent": represent_case, "represent_wide": represent_case, "represent_multidigit": represent_case,
+FUNCS = {"expand_histories": expand_history_case, "scale_kinds": scale_kinds_case, "scale_big": scale_big_case, "expand_kinds": expand_kinds_case, "expand_combine": expand_case, "batches": batch_case, "pipeline": pipeline_case, "scale": scale_case, "represent": represent_case, "represent_wide": represent_case, "represent_multidigit": represent_case,
          "represent_real_rng": seam_validation_case}
 
 
@@ -324,6 +400,16 @@ def run(run):
             if dt not in ("py", "tuple"):
                 kinds.append({"dtype": dt, "ns": [n_], "max": m_, "max_typed": True})
     secs.append(Section("expand_kinds", kinds, expand_kinds_case, desc="expand_sample_sizes with counts as numpy arrays of 8/16/32/64-bit integer types (count + max beyond the type's range), tuples and large Python ints"))
+    eh = [{"ns": list(ns_), "max": m_, "mut": mu} for ns_ in ([5], [7, 3], [10, 1, 4], [2, 2], [24, 24, 1]) for m_ in (1, 3, 4, 30) for mu in ("pop", "zero", "extend", "reverse")]
+    secs.append(Section("expand_histories", eh, expand_history_case, desc="expand_sample_sizes called again with equal (and slightly different) arguments after the caller consumed the returned sequences in place"))
+    sk = []
+    for w_, t_ in (([1, 2, 3], 10), ([4 * 10 ** 18, 1, 1, 1, 1, 1, 1, 1, 1, 1], 5), ([10 ** 9, 2 * 10 ** 9, 3 * 10 ** 9], 10 ** 10), ([10 ** 6, 1, 7], 10 ** 13 + 1), ([3, 3, 3], 2 ** 40 + 1), ([2 ** 62, 2 ** 61], 7),
+                   ([65535, 65535, 1], 70000), ([5, 1], 0), ([1] * 40, 10 ** 12 + 7)):
+        for kd in ("int64", "pyint", "np-list", "tuple", "float64") + (("uint32", "int32", "float32") if max(w_) < 2 ** 31 else ()):
+            sk.append({"weights": w_, "total": t_, "kind": kd})
+            if t_ < 2 ** 62:
+                sk.append({"weights": w_, "total": t_, "kind": kd, "total_np": True})
+    secs.append(Section("scale_kinds", sk, scale_kinds_case, desc="scale_and_discretize with the weights as numpy integer / float arrays, lists of numpy integers, tuples, big Python ints (weight x total beyond 2^63), totals as numpy integers"))
     secs.append(Section("batches", [{"len": L, "size": b} for L in range(0, 8) for b in range(1, 9)], batch_case, desc="split_into_batches"))
     P = [{"ns": list(ns), "max": m, "batch": b} for k in (1, 2, 3) for ns in itertools.product((1, 4, 7, 10), repeat=k) for m in (1, 3, 4, 10) for b in (1, 2, 5)]
     secs.append(Section("pipeline", P, pipeline_case, desc="expand -> split_into_batches -> reference runner -> combine"))
